@@ -6,8 +6,8 @@
    Conventions
    * [raw] is what read(2) returned: 10-byte virtio_net_hdr followed by the packet.
    * [nbufs] = len(bufs), [room] = len(bufs[i][offset:]) (the harness gives every buffer the
-     same size).  For the GSO path the model assumes room >= 65535 (every produced segment
-     fits); the non-GSO path tests it as the code does.
+     same size).  For the GSO path the model assumes room >= |in| + 2 (no segment is
+     longer than the read, so every produced segment fits); the non-GSO path tests it as the code does.
    * Output buffers are observed as bufs[i][offset:offset+sizes[i]].  They are pooled and never
      cleared in the device, so before the call they hold stale bytes: the harness pre-fills
      buffer i (its whole capacity) with the pattern [stale gseed i] and the model starts from
@@ -34,10 +34,20 @@ Definition not16 (x : N) : N := 65535 - x.          (* ^x on uint16, x <= 65535 
 (* if cSum == 0 { cSum = 0xffff }: RFC 768 / the kernel's CSUM_MANGLED_0 *)
 Definition mangle0 (x : N) : N := if x =? 0 then 65535 else x.
 
-(* stale content of output buffer i at position j (relative to offset); never zero *)
-Definition stale_byte (gseed i j : N) : N := 1 + ((gseed + 7 * i + j * (j + 3)) mod 65521) mod 255.
-Definition stale (gseed i n : N) : list N :=
-  map (fun j => stale_byte gseed i (N.of_nat j)) (seq 0 (N.to_nat n)).
+(* Stale content of output buffer i (from offset on): a 16-bit xorshift stream, bytes 1..128,
+   never zero, period 65535.  Bit operations only: this runs once per output byte in the case
+   files. *)
+Definition xs16 (x : N) : N :=
+  let x := N.lxor x (N.land (N.shiftl x 7) 65535) in
+  let x := N.lxor x (N.shiftr x 9) in
+  N.lxor x (N.land (N.shiftl x 8) 65535).
+Definition stale_start (gseed i : N) : N := N.lor 1 (N.land (gseed + 7919 * i) 65535).
+Fixpoint stale_from (n : nat) (x : N) : list N :=
+  match n with
+  | O => []
+  | S m => (1 + N.land x 127) :: stale_from m (xs16 x)
+  end.
+Definition stale (gseed i n : N) : list N := stale_from (N.to_nat n) (stale_start gseed i).
 
 Record vhdr := {
   v_flags : N; v_gsoType : N; v_hdrLen : N; v_gsoSize : N; v_csumStart : N; v_csumOffset : N }.
